@@ -275,7 +275,8 @@ def _cseg_layout(repo, col):
                     "by the append of its segment", nontrivial=False)
     # 9. channel table size and block table size
     ec = repo.func(mod, "encode_chunk")
-    okh = "bytearray(4 * num_channels)" in ftext(ec)
+    okh = "bytearray(4 * num_channels)" in ftext(ec) or \
+        "bytearray(4 * chunk.shape[0])" in ftext(ec)
     col.add(rule + ".tables", ec, "bytearray(4 * num_channels)", okh,
             "" if okh else "channel offset table is not 4 bytes per channel",
             undecided=not okh)
@@ -432,9 +433,23 @@ def sharded_layout(repo, col, parts=("index", "name")):
             dep |= names_in(v)
         defs = local_defs(h.node)
         clos = closure_names(h.node, dep, defs)
-        bad = any("minishard_bits" in norm(d.value) or
-                  "header_byte_length" in norm(d.value)
-                  for n in clos for d in defs.get(n, []) if d.value is not None)
+        def adds_index_length(v):
+            # the index length added to an offset (not: used to count the
+            # padding entries, compared, or subtracted)
+            for x in ast.walk(v):
+                if isinstance(x, ast.BinOp) and isinstance(x.op, ast.Add):
+                    for side in (x.left, x.right):
+                        t_ = norm(side)
+                        if ("minishard_bits" in t_ or
+                                "header_byte_length" in t_) and not any(
+                                    isinstance(y, ast.BinOp) and isinstance(
+                                        y.op, (ast.Sub, ast.FloorDiv))
+                                    for y in ast.walk(side)):
+                            return True
+            return False
+        bad = any(adds_index_length(d.value)
+                  for n in clos for d in defs.get(n, []) if d.value is not None) \
+            or any(adds_index_length(v) for v in vals)
         col.add(rule + ".index-origin", h, norm(vals[0])[:40] if vals else "-",
                 not bad,
                 "offsets are relative to the end of the shard index" if not bad
@@ -711,10 +726,19 @@ def routing_bits(repo, col):
     hname = None
     cls_rw = rw.classes.get("CMCReadWrite")
     if cls_rw is not None:
-        for mn, mf in cls_rw.methods.items():
-            if any((call_name(c) or "").endswith("id_hash")
-                   for c in calls_in(mf.node)):
-                hname = mn
+        cands = [mn for mn, mf in cls_rw.methods.items()
+                 if any((call_name(c) or "").endswith("id_hash")
+                        for c in calls_in(mf.node))]
+        # the one the routing methods call (an extracted helper of it also
+        # calls id_hash)
+        users = " ".join(norm(cls_rw.methods[k].node)
+                         for k in ("get_minishard_key", "get_shard_key")
+                         if k in cls_rw.methods)
+        used = [mn for mn in cands if "self.%s(" % mn in users]
+        # (after inlining the routing methods call id_hash themselves)
+        cands = [mn for mn in cands
+                 if mn not in ("get_minishard_key", "get_shard_key")] or cands
+        hname = (used or cands or [None])[0]
     if hname is None:
         col.add(rule + ".routing", "sharded_base:CMCReadWrite",
                 "hash of the pre-shifted id", True, "no method of "
@@ -742,6 +766,12 @@ def routing_bits(repo, col):
         rets = [norm(_exr(s.value, rtab)) for s in stmts_of(fn.node)
                 if isinstance(s, ast.Return) and s.value is not None]
         alt = pat.replace(" & ", " @ ").split(" @ ")
+        # the hash helper may have been inlined into the routing methods
+        hinl = "self.shard_spec.id_hash(%s >> self.shard_spec.preshift_bits)" \
+            % (pn[0] if pn else "cmc")
+        hcall = "self.%s(%s)" % (hname, pn[0] if pn else "cmc")
+        rets = [r.replace(hinl, hcall) for r in rets] \
+            if qn != "CMCReadWrite.%s" % hname else rets
         ok = any(r == pat or (len(alt) == 2 and r == "%s & %s" % (alt[1], alt[0]))
                  for r in rets)
         col.add(rule + ".routing", fn, rets[0] if rets else "-", ok,
@@ -832,7 +862,11 @@ def morton_loop(repo, col):
     inner = inner[0]
     i = outer.target.id if isinstance(outer.target, ast.Name) else None
     dim = inner.target.id if isinstance(inner.target, ast.Name) else None
-    ok_outer = norm(outer.iter) in ("range(max(self.num_bits))",)
+    # locals that only hold an attribute (num_bits = self.num_bits)
+    from .dataflow import single_defs as _sdm, expand as _exm
+    _tab = {k: v for k, v in _sdm(fn.node).items()
+            if isinstance(v, ast.Attribute)}
+    ok_outer = norm(_exm(outer.iter, _tab)) in ("range(max(self.num_bits))",)
     col.add(rule, fn, "for %s in %s" % (i, norm(outer.iter)), ok_outer,
             "bit index is the outer loop" if ok_outer else
             "outer loop is not over the bit index range(max(num_bits))",
@@ -848,6 +882,7 @@ def morton_loop(repo, col):
     if conds:
         from .dataflow import single_defs, expand, holds as _holds
         test = expand(conds[0].test, single_defs(fn.node))
+        test = expand(test, _tab)
         form = norm(test)
         # condition under which the axis contributes a bit: the test itself
         # when the contribution is in the body, its negation when the body
